@@ -197,6 +197,15 @@ def run_object(case, all_sync):
         log.append(['d', _t(d), False])
         return d
     p.read_nonblocking = rn
+    logged = []
+
+    class LogRec(object):
+        def write(self, s_):
+            logged.append(_t(s_))
+
+        def flush(self):
+            pass
+    p.logfile_read = LogRec()
     loop = VLoop(clk)
     asyncio.set_event_loop(loop)
 
@@ -279,7 +288,7 @@ def run_object(case, all_sync):
                 c()
             except Exception:
                 pass
-    return dict(recs=recs, log=log, fin=fin)
+    return dict(recs=recs, log=log, fin=fin, logged=logged)
 
 
 FIELDS = ('out', 'before', 'after', 'match', 'buffer', 'match_index')
@@ -552,6 +561,12 @@ def run(ctx):
             common.report(ctx, KNOWN_EOF, 'an EOF was delivered while no awaited call was outstanding; afterwards the awaited history differs from the twin '
                           '(%s)' % (d[1] if d else [r['out'] for r in a['recs'] if r['out'].startswith('EXC')][0]), dict(case=c))
             continue
+        if d is None and not c.get('encoding'):
+            # logfile_read on the awaited path: everything the loop or a blocking read took from the child, once, in order -
+            # also what arrived while no call was outstanding
+            took = ''.join(ev[1] for ev in a['log'] if ev[0] == 'd')
+            if ''.join(a['logged']) != took:
+                d = (len(a['recs']) - 1, 'logfile_read', ''.join(a['logged'])[-60:], took[-60:])
         if d is not None:
             sig = classify(c, d, a['recs'][d[0]] if d[0] < len(a['recs']) else None)
             msg = 'call %d (%s, timeout=%r): %s awaited %r, blocking twin %r' % (d[0], 'awaited' if c['ops'][d[0]]['mode'] == 'a' else 'blocking', c['ops'][d[0]]['T'], d[1], d[2], d[3])
